@@ -93,7 +93,7 @@ class Check:
         self.replayers = {}      # prefix -> callable(verdict) -> dict|None
         self.sources = {}
         self.layout_facts = set()
-        self.timeout = 20 if self.tier == 'quick' else 120
+        self.timeout = 45 if self.tier == 'quick' else 180      # sized so that verdicts do not flip when all cores are busy
         self.checker_cmd = 'python3-vt /verif/check %s' % pid
 
     # ------------------------------------------------------------------------
